@@ -213,4 +213,20 @@ var HostileKeys = []string{
 	"Xab", "Xab/Xac", "../.temp", "../.temp/zz", "abc/", "/abc", ".temp", "..a", "a..", "...",
 	"00", "000", "k\xff\xfe", "\xff", "a b", "a\nb", "a\tb", "0/..", "00/.", "x/../y", "y",
 	strings.Repeat("ab/", 100), strings.Repeat("\xe2\x82\xac", 20),
+	// long keys around the point where the base32 form stops fitting a file name (159 raw bytes -> 255),
+	// in pairs that share a long prefix and differ only in the tail
+	LongPrefix, LongPrefix[:158] + "R", LongPrefix + "tailA", LongPrefix + "tailB",
+	strings.Repeat("Q", 299) + "a", strings.Repeat("Q", 299) + "b",
+}
+
+// LongPrefix: 159 bytes, the longest key whose base32 form (255 characters) is still a valid file name.
+var LongPrefix = strings.Repeat("Q", 159)
+
+// LongPairs: distinct keys with a common prefix of at least 158 bytes.
+var LongPairs = [][2]string{
+	{LongPrefix, LongPrefix[:158] + "R"},
+	{LongPrefix + "tailA", LongPrefix + "tailB"},
+	{LongPrefix + "x", LongPrefix + "y"},
+	{strings.Repeat("Q", 299) + "a", strings.Repeat("Q", 299) + "b"},
+	{strings.Repeat("\x00", 200) + "1", strings.Repeat("\x00", 200) + "2"},
 }
